@@ -3,11 +3,13 @@
 package interp
 
 import (
+	"bytes"
 	"fmt"
 	"io/fs"
 
 	"github.com/wader/fq/internal/mapstruct"
 	"github.com/wader/fq/pkg/bitio"
+	"github.com/wader/fq/pkg/ranges"
 	"github.com/wader/fq/pkg/scalar"
 	"github.com/wader/gojq"
 )
@@ -84,4 +86,20 @@ func VerifC13ByteColor(byteColors any, b int) (string, error) {
 	}
 	d := decoratorFromOptions(opts)
 	return d.ByteColor(byte(b)).SetString, nil
+}
+
+// VerifC13Hexdump runs the real hexdump (dump.go) on the bit range startBit..startBit+sizeBits of
+// a buffer holding data, with the options the real OptionsFromValue makes of v, and returns the
+// text (to check the display_bytes / line_bytes arithmetic of dump.go:227-310 through its output).
+func VerifC13Hexdump(data []byte, startBit, sizeBits int64, v any) (string, error) {
+	o, err := OptionsFromValue(v)
+	if err != nil {
+		return "", err
+	}
+	var b bytes.Buffer
+	bv := Binary{br: bitio.NewBitReader(data, -1), r: ranges.Range{Start: startBit, Len: sizeBits}, unit: 8}
+	if err := hexdump(&b, bv, o); err != nil {
+		return "", err
+	}
+	return b.String(), nil
 }
